@@ -16,8 +16,8 @@ CLIENT_PROPS = {"C03", "C04", "C05", "C11", "C18"}
 def run_client(res, pid, bdir, lib):
     """the client role: real cs104_connection.c with its thread as a fiber vs Iec.Cli104"""
     ops, impl, model = (os.path.join(bdir, x) for x in ("cops.txt", "cimpl.txt", "cmodel.txt"))
-    excl = {"iec60870/cs104/cs104_connection.c"} | set(REAL_HAL)
-    exe = build_harness("cli104", ["cli104.c", "simhal.c"], lib, bdir, exclude=excl,
+    excl = {"iec60870/cs104/cs104_connection.c", "hal/memory/lib_memory.c"} | set(REAL_HAL)
+    exe = build_harness("cli104", ["cli104.c", "simhal.c", "memcount.c"], lib, bdir, exclude=excl,
                         extra_flags=["-I" + os.path.join(SRC, "iec60870/cs104")])
     rc, out = sh([exe, ops, impl, res.tier], env={"VERIF_SEED": str(seed())}, timeout=3000)
     if rc != 0:
@@ -35,8 +35,8 @@ def run(res, pid, extra_targets=()):
     ops, impl, model = (os.path.join(bdir, x) for x in ("ops.txt", "impl.txt", "model.txt"))
     try:
         lib = build_lib()
-        excl = {"iec60870/cs104/cs104_slave.c"} | set(REAL_HAL)
-        exe = build_harness("srv104", ["srv104.c", "simhal.c"], lib, bdir, exclude=excl,
+        excl = {"iec60870/cs104/cs104_slave.c", "hal/memory/lib_memory.c"} | set(REAL_HAL)
+        exe = build_harness("srv104", ["srv104.c", "simhal.c", "memcount.c"], lib, bdir, exclude=excl,
                             extra_flags=["-I" + os.path.join(SRC, "iec60870/cs104")])
         rc, out = sh([exe, ops, impl, res.tier], env={"VERIF_SEED": str(seed())}, timeout=3000)
         if rc != 0:
